@@ -189,6 +189,8 @@ AMOUNTS = {
     },
     # 2021 only
     'ctc_2021_first_phaseout': {2021: _by(75000, 150000, 75000, 112500, 150000)},
+    # 2021 Schedule 8812 Part III line 33 (repayment protection): 60,000 joint / qualifying widow(er), 50,000 head of household, 40,000 others
+    'ctc_2021_repayment_protection_agi': {2021: _by(40000, 60000, 40000, 50000, 60000)},
     'ctc_2021_line5wkst_line6': {2021: _by(6250, 12500, 6250, 4375, 2500)},
     'rrc_phaseout_start': {2021: _by(75000, 150000, 75000, 112500, 150000)},
     'rrc_phaseout_end': {2021: _by(80000, 160000, 80000, 120000, 160000)},
